@@ -3,7 +3,7 @@
 //! extracted model. Property oracles are evaluated on the implementation's own before/after snapshots.
 //!
 //! cases.txt: `<id> T=<content>:<digest hex>;.. HOST=<hex> A=<tree> B=<tree> OPS=<op>,..`
-//!   op = `X<k>` (a run whose k-th mutating call fails with EIO) | `WA:<phex>:<chex>` | `WB:..` | `MA:..` | `MB:..` (a write that takes the opposite side's exact mtime) | `DA:<phex>` | `DB:<phex>` | `R` | `F`
+//!   op = `X<k>` (a run whose k-th mutating call fails with EIO) | `WA:<phex>:<chex>` | `WB:..` | `MA:..` | `MB:..` (a write that takes the opposite side's exact mtime) | `DA:<phex>` | `DB:<phex>` | `R` | `F<kind 0-8>` (archive fault; 8 = the name of one root re-pointed to another directory with the same files)
 //! impl.txt:  `<id> <state>|<state>|..`   state = `A=<tree>;B=<tree>;Z=<arch|none>;X=<OK|CONFLICTS|IOERR|->;P=<plan|->`
 use crate::hubctl::snapshot;
 use crate::util::*;
@@ -71,8 +71,45 @@ impl Env {
         v.sort();
         v
     }
+    /// the archive file of THIS pair: `<BLAKE3(canonical A, NUL, canonical B)>.json` (the naming rule of archive.rs)
     pub fn archive_main(&self) -> Option<String> {
-        self.archive_files().into_iter().find(|f| f.ends_with(".json"))
+        let canon = |p: &str| std::fs::canonicalize(p).map(|x| x.to_string_lossy().into_owned()).unwrap_or_else(|_| p.to_string());
+        let mut h = blake3::Hasher::new();
+        h.update(canon(&self.a).as_bytes());
+        h.update(b"\0");
+        h.update(canon(&self.b).as_bytes());
+        let want = format!("{}.json", h.finalize().to_hex());
+        self.archive_files().into_iter().find(|f| f.ends_with(&want))
+    }
+    /// both roots are NAMED through symbolic links (`A -> A.r0`, `B -> B.r0`): the name a user types and the directory it
+    /// denotes are different things, and the recorded state belongs to the directories
+    pub fn reset_symlinked(&self) {
+        if let Ok(rd) = std::fs::read_dir(&self.dir) {
+            for e in rd.flatten() {
+                let p = e.path();
+                let is_link = std::fs::symlink_metadata(&p).map(|m| m.file_type().is_symlink()).unwrap_or(false);
+                if is_link { let _ = std::fs::remove_file(&p); } else { let _ = std::fs::remove_dir_all(&p); }
+            }
+        }
+        std::fs::create_dir_all(&self.home).unwrap();
+        for root in [&self.a, &self.b] {
+            std::fs::create_dir_all(format!("{}.r0", root)).unwrap();
+            std::os::unix::fs::symlink(format!("{}.r0", root), root).unwrap();
+        }
+    }
+    /// re-point the name of one root to a fresh directory holding a copy of the same files: same name, same contents,
+    /// another directory - the pair is a different pair and its recorded state is foreign
+    pub fn repoint(&self, side_a: bool, generation: usize) {
+        let root = if side_a { &self.a } else { &self.b };
+        let newreal = format!("{}.r{}", root, generation);
+        std::fs::create_dir_all(&newreal).unwrap();
+        for (p, c) in read_tree(root) {
+            let full = format!("{}/{}", newreal, p);
+            std::fs::create_dir_all(std::path::Path::new(&full).parent().unwrap()).unwrap();
+            std::fs::write(&full, c).unwrap();
+        }
+        let _ = std::fs::remove_file(root);
+        std::os::unix::fs::symlink(&newreal, root).unwrap();
     }
     /// entries of the archive as path -> digest hex (None when absent / unparsable)
     pub fn archive_entries(&self) -> Option<BTreeMap<String, String>> {
@@ -163,12 +200,8 @@ fn write_file2(root: &str, other: Option<&str>, p: &str, c: &[u8], r: &mut Rng, 
 }
 
 pub fn run_history(id: usize, env: &Env, init_a: &Tree, init_b: &Tree, ops: &[Op], r: &mut Rng, swap_check: bool) -> HistResult {
-    let _ = std::fs::remove_dir_all(&env.a);
-    let _ = std::fs::remove_dir_all(&env.b);
-    let _ = std::fs::remove_dir_all(&env.home);
-    for d in [&env.a, &env.b, &env.home] {
-        std::fs::create_dir_all(d).unwrap();
-    }
+    env.reset_symlinked();
+    let mut generation = 0usize;
     for (p, c) in init_a {
         write_file(&env.a, p, c, r);
     }
@@ -202,11 +235,15 @@ pub fn run_history(id: usize, env: &Env, init_a: &Tree, init_b: &Tree, ops: &[Op
                 op_strs.push(format!("D{}:{}", if *side { "A" } else { "B" }, hex(p.as_bytes())));
             }
             Op::Fault(kind) => {
-                op_strs.push("F".into());
+                op_strs.push(format!("F{}", kind % 9));
                 fault_pending = true;
-                if let Some(f) = env.archive_main() {
+                if kind % 9 == 8 {
+                    // foreign pair: the name of one root now denotes another directory (same files)
+                    generation += 1;
+                    env.repoint(r.chance(1, 2), generation);
+                } else if let Some(f) = env.archive_main() {
                     let bytes = std::fs::read(&f).unwrap_or_default();
-                    match kind % 8 {
+                    match kind % 9 {
                         0 => { let _ = std::fs::remove_file(&f); }
                         1 => { std::fs::write(&f, b"").unwrap(); }
                         2 => { let n = r.below(bytes.len() as u64) as usize; std::fs::write(&f, &bytes[..n]).unwrap(); }
@@ -471,6 +508,7 @@ pub fn parse_case(line: &str) -> (Tree, Tree, Vec<Op>) {
                         "DB" => ops.push(Op::Delete(false, s(f[1]))),
                         "R" => ops.push(Op::Run),
                         x if x.starts_with('X') && x[1..].parse::<u32>().is_ok() => ops.push(Op::RunFault(x[1..].parse().unwrap())),
+                        x if x.starts_with('F') => ops.push(Op::Fault(x[1..].parse().unwrap_or(0))),
                         _ => ops.push(Op::Fault(0)),
                     }
                 }
@@ -551,7 +589,7 @@ fn gen_history(r: &mut Rng, pool: &[Vec<u8>], paths: &[&str]) -> (Tree, Tree, Ve
                 let p = r.pick(paths).to_string();
                 if r.chance(1, 2) { ops.push(Op::Write(r.chance(1, 2), p, r.pick(pool).clone(), false)); } else { ops.push(Op::Delete(r.chance(1, 2), p)); }
             }
-            ops.push(Op::Fault(r.below(8) as u8));
+            ops.push(Op::Fault(r.below(9) as u8));
             ops.push(Op::Run);
             ops.push(Op::Run);
         }
@@ -563,7 +601,7 @@ fn gen_history(r: &mut Rng, pool: &[Vec<u8>], paths: &[&str]) -> (Tree, Tree, Ve
                     0..=3 => { if r.chance(1, 12) { ops.push(Op::RunFault(1 + r.below(14) as u32)) } else { ops.push(Op::Run) } }
                     4..=6 => { let pm = r.chance(1, 3); ops.push(Op::Write(r.chance(1, 2), r.pick(paths).to_string(), r.pick(pool).clone(), pm)) }
                     7 | 8 => ops.push(Op::Delete(r.chance(1, 2), r.pick(paths).to_string())),
-                    _ => ops.push(Op::Fault(r.below(8) as u8)),
+                    _ => ops.push(Op::Fault(r.below(9) as u8)),
                 }
             }
             ops.push(Op::Run);
